@@ -760,9 +760,9 @@ struct Provider {
     compat: bool,
 }
 
-impl XfrDataProvider<()> for Provider {
+impl<RM> XfrDataProvider<RM> for Provider {
     type Diff = Arc<InMemoryZoneDiff>;
-    fn request<Octs>(&self, req: &Request<Octs, ()>, diff_from: Option<Serial>) -> Pin<Box<dyn Future<Output = Result<XfrData<Self::Diff>, XfrDataProviderError>> + Sync + Send + '_>>
+    fn request<Octs>(&self, req: &Request<Octs, RM>, diff_from: Option<Serial>) -> Pin<Box<dyn Future<Output = Result<XfrData<Self::Diff>, XfrDataProviderError>> + Sync + Send + '_>>
     where
         Octs: octseq::Octets + Send + Sync,
     {
@@ -816,6 +816,70 @@ async fn serve(p: Provider, query: Message<Vec<u8>>, udp: Option<u16>, reserve: 
             Err(e) => return Err(format!("service error {:?}", e)),
         }
     }
+    Ok(msgs)
+}
+
+/// The same transfer with the request and every response signed: TsigMiddlewareSvc around the
+/// XFR middleware on the server side, ClientSequence on the receiving side. Returns the verified
+/// messages.
+#[cfg(feature = "crypto")]
+async fn serve_tsig(p: Provider, apex: &[u8], qtype: u16, id: u16, serial: u32, key: std::sync::Arc<domain::tsig::Key>, reserve: u16) -> Result<Vec<Vec<u8>>, String> {
+    use domain::net::server::middleware::tsig::TsigMiddlewareSvc;
+    use domain::rdata::tsig::Time48;
+    use domain::tsig::ClientSequence;
+    #[derive(Clone)]
+    struct NoNextK;
+    impl Service<Vec<u8>, Option<std::sync::Arc<domain::tsig::Key>>> for NoNextK {
+        type Target = Vec<u8>;
+        type Stream = Once<Ready<ServiceResult<Self::Target>>>;
+        type Future = Ready<Self::Stream>;
+        fn call(&self, _request: Request<Vec<u8>, Option<std::sync::Arc<domain::tsig::Key>>>) -> Self::Future {
+            ready(once(ready(Err(ServiceError::Refused))))
+        }
+    }
+    // the signed query
+    let mut mb = MessageBuilder::new_vec();
+    mb.header_mut().set_id(id);
+    let mut q = mb.question();
+    q.push((sname(apex), Rtype::from_int(qtype))).unwrap();
+    let mut ab = if qtype == T_IXFR {
+        let mut a = q.authority();
+        let soa: Soa<Name<Bytes>> = Soa::new(sname(apex), sname(apex), Serial(serial), Ttl::ZERO, Ttl::ZERO, Ttl::ZERO, Ttl::ZERO);
+        a.push((sname(apex), Class::IN, Ttl::ZERO, soa)).unwrap();
+        a.additional()
+    } else {
+        q.additional()
+    };
+    let mut cseq = ClientSequence::request(key.clone(), &mut ab, Time48::now()).map_err(|_| "signing the query failed".to_string())?;
+    let query = Message::from_octets(ab.finish()).map_err(|_| "query".to_string())?;
+    let ctx = TransportSpecificContext::NonUdp(NonUdpTransportContext::new(None));
+    let mut req = Request::new("127.0.0.1:5353".parse().unwrap(), tokio::time::Instant::now(), query, ctx, ());
+    if reserve > 0 {
+        req.reserve_bytes(reserve);
+    }
+    let xfr = XfrMiddlewareSvc::<Vec<u8>, NoNextK, Option<std::sync::Arc<domain::tsig::Key>>, Provider>::new(NoNextK, p, 2);
+    let svc = TsigMiddlewareSvc::<Vec<u8>, _, std::sync::Arc<domain::tsig::Key>, ()>::new(xfr, key.clone());
+    let mut stream = svc.call(req).await;
+    let mut msgs = Vec::new();
+    let mut i = 0;
+    while let Some(item) = stream.next().await {
+        match item {
+            Ok(cr) => {
+                let (resp, _fb) = cr.into_inner();
+                if let Some(b) = resp {
+                    let wire = b.as_message().as_slice().to_vec();
+                    let mut m = Message::from_octets(wire).map_err(|_| "short response".to_string())?;
+                    cseq.answer(&mut m, Time48::now()).map_err(|e| format!("tsig-verify:message {} of the signed transfer does not verify: {}", i + 1, e))?;
+                    // what a receiver works with: the message as it was before signing
+                    let pm = w::parse_message(m.as_slice()).map_err(|_| "tsig-verify:verified message unparsable".to_string())?;
+                    msgs.push(m.as_slice()[..pm.end].to_vec());
+                    i += 1;
+                }
+            }
+            Err(e) => return Err(format!("service error {:?}", e)),
+        }
+    }
+    cseq.done().map_err(|e| format!("tsig-verify:the signed transfer does not end with a signed message: {}", e))?;
     Ok(msgs)
 }
 
@@ -1181,6 +1245,17 @@ fn one_case(c: &mut Ctx, rt: &tokio::runtime::Runtime, fam: &str, idx: u64) {
         let udp = if kind == "ixfr" && rng.chance(1, 5) { Some(*rng.pick(&[512u16, 1232, 4096])) } else { None };
         let reserve = if udp.is_none() && rng.chance(1, 3) { 65535 - rng.range(200, 900) as u16 } else if udp.is_some() && rng.bool() { rng.range(0, 300) as u16 } else { 0 };
         let prov = Provider { zone: sender.clone(), diffs: diffs.clone(), compat };
+        #[cfg(feature = "crypto")]
+        let tsig_key = if udp.is_none() && rng.chance(1, 3) { Some(crate::p11::gen_key(&mut rng)) } else { None };
+        #[cfg(feature = "crypto")]
+        let served = match &tsig_key {
+            Some(ks) => {
+                k.c.count("tsig_signed_transfers", 1);
+                ctx::catch(|| rt.block_on(serve_tsig(prov, &apex, qtype, id, serial_of_rdata(&soa_of(&vs[from]).rdata), ks.lib.clone(), reserve.min(60000))))
+            }
+            None => ctx::catch(|| rt.block_on(serve(prov, query.clone(), udp, reserve))),
+        };
+        #[cfg(not(feature = "crypto"))]
         let served = ctx::catch(|| rt.block_on(serve(prov, query.clone(), udp, reserve)));
         let msgs = match served {
             Err(pi) => {
@@ -1188,7 +1263,8 @@ fn one_case(c: &mut Ctx, rt: &tokio::runtime::Runtime, fam: &str, idx: u64) {
                 continue;
             }
             Ok(Err(e)) => {
-                k.viol(&format!("sender:{}:service-error", kind), &e);
+                let sig = if e.starts_with("tsig-verify:") { format!("sender:{}:tsig-signed-transfer-does-not-verify", kind) } else { format!("sender:{}:service-error", kind) };
+                k.viol(&sig, &e);
                 continue;
             }
             Ok(Ok(m)) => m,
@@ -1349,7 +1425,7 @@ fn one_case(c: &mut Ctx, rt: &tokio::runtime::Runtime, fam: &str, idx: u64) {
 pub fn run(c: &mut Ctx) {
     let rt = tokio::runtime::Builder::new_current_thread().enable_all().build().unwrap();
     let fam = "pairs";
-    let total = c.total(120_000, 3_000_000);
+    let total = c.total(80_000, 3_000_000);
     for idx in c.cases(fam, total) {
         if c.out_of_time() {
             break;
